@@ -21,7 +21,10 @@ EXPLANATION = (
     "decided by a path-sensitive symbolic walk of each construct template with computed label names "
     "(else-if-N, caseN, case-multi-expr-N-M) kept as terms: every label emitted right after an "
     "unconditional jump is targeted by a jump on the same emission path, every jump target is "
-    "emitted exactly once, nothing is emitted dead after an unconditional jump.")
+    "emitted exactly once, nothing is emitted dead after an unconditional jump; (R7) every statement "
+    "block of a construct is followed directly by its statement mark, before the exit jump, so that "
+    "RESUME NEXT after an error in the last statement of a branch leaves the construct like the "
+    "equivalent IF chain does (shared with C05.R2).")
 NOT_DECIDED = [
     "the listed rewrite equivalences themselves (FOR = WHILE, SELECT = IF chain ...): relational "
     "properties of run-time behaviour",
@@ -389,3 +392,5 @@ def run(ctx):
     r4_loop_templates(ctx, T)
     r5_label_names_injective(ctx)
     r6_template_reachability(ctx)
+    from . import c05
+    c05.r2_mark_after_block(ctx, "C02.R7")
